@@ -247,7 +247,7 @@ class Tabulated(Sub):
                         pass
             # ---- PRISM level
             types = ['A', 'B'][:spec['rank']]
-            s = P.System(types, kT=1.0)
+            s = P.System(types)
             s.domain = dom
             s.density[types] = spec['rho']
             s.diameter[types] = 1.0
